@@ -166,6 +166,21 @@ class WeightedMonitor:
                 except Exception as ex:
                     ctx.hit(f"out_of_domain:term value raises {type(ex).__name__}")
                     return
+                if isinstance(term, fl.Linear) and term.engine is not None and not tsukamoto:
+                    # (the value of a Linear term is its coefficients - as the list holds them now - applied to the input values)
+                    try:
+                        cs = [float(c) for c in term.coefficients]
+                        ins = [np.asarray(v.value, dtype=float) for v in term.engine.input_variables]
+                        if len(cs) in (len(ins), len(ins) + 1):
+                            ref = sum((c * x for c, x in zip(cs, ins)), np.asarray(0.0)) + (cs[len(ins)] if len(cs) > len(ins) else 0.0)
+                            ctx.hit("compare:Linear term value")
+                            if np.shape(ref) == np.shape(z) or np.size(ref) == np.size(z):
+                                a, b = np.asarray(ref, dtype=float).ravel(), np.asarray(z, dtype=float).ravel()
+                                if not bool(np.all((np.abs(a - b) <= 1e-9 * np.maximum(1.0, np.abs(a))) | (np.isnan(a) & np.isnan(b)) | (np.isinf(a) & (a == b)))):
+                                    ctx.violation("the value of a Linear term is not its coefficients applied to the input values", dict(case, term=term.name, coefficients=cs), a, b)
+                                    return
+                    except (TypeError, ValueError):
+                        pass
                 z = np.asarray(z, dtype=float).ravel()
                 zsize = max(zsize, z.size)
                 if z.size > 1 and row >= z.size:
@@ -313,6 +328,38 @@ def run(ctx):
             envname = ENVIRONMENTS[(i // 10) % len(ENVIRONMENTS)] if i % 10 == 3 else None
             engine, specs, acts, aggregation, family = gen_set(fl, rnd, batch)
             agg_op = getattr(fl, aggregation)() if aggregation else None
+            if i % 7 == 3 and family != "mixed" and len(specs) >= 2:
+                # distinct terms without a name (the empty name is the default): one group, like any other shared name
+                for _, t in specs[:2]:
+                    t.name = ""
+                ctx.hit("event:distinct terms with the empty name")
+            if i % 5 == 1:
+                # a Linear term is re-tuned by editing its list of coefficients in place, after it has been evaluated once
+                for _, t in specs:
+                    if isinstance(t, fl.Linear) and t.coefficients:
+                        try:
+                            t.membership(0.0)
+                        except Exception:
+                            pass
+                        t.coefficients[0] = G.snap(rnd.uniform(-2, 2), 3)
+                        if rnd.random() < 0.5:
+                            t.coefficients[-1] += 0.5
+                        ctx.hit("event:coefficients of a Linear term edited in place after an evaluation")
+            # an activation keeps the degrees it was given: the caller's array is neither rewritten nor followed when it changes
+            for t, d in acts[:2]:
+                if isinstance(d, np.ndarray) and d.dtype.kind == "f" and d.size:
+                    mine = np.array(d, copy=True)
+                    mine[0] = math.nan
+                    given = mine.copy()
+                    act = fl.Activated(t, mine)
+                    stored = np.array(act.degree, dtype=float, copy=True)
+                    ctx.evaluated()
+                    ctx.hit("law:an activation keeps its own degrees")
+                    if not np.array_equal(mine, given, equal_nan=True):
+                        ctx.violation("creating an activation rewrites the caller's array of degrees", {"term": t.name}, given, mine)
+                    mine[:] = 0.75
+                    if not np.array_equal(np.asarray(act.degree, dtype=float), stored, equal_nan=True):
+                        ctx.violation("the degrees of an activation follow later changes of the array they were given in", {"term": t.name}, stored, act.degree)
             out = fl.Aggregated("o", -3.0, 7.0, agg_op, [fl.Activated(t, d) for t, d in acts])
             held = [(v, np.array(v.value, dtype=float, copy=True)) for v in engine.input_variables]
             degrees_before = [np.array(a.degree, dtype=float, copy=True) for a in out.terms]
@@ -338,7 +385,8 @@ def run(ctx):
                     except Exception:
                         continue  # judged by the monitor
                     # a zero-degree activation at every position never changes the result
-                    if family != "mixed" and i % 2 == 0:
+                    # (not where distinct terms share a name: which of them stands for the group then depends on which comes first)
+                    if family != "mixed" and i % 2 == 0 and len({t.name for _, t in specs}) == len(specs):
                         for pos in range(len(acts) + 1):
                             t = rnd.choice(specs)[1]
                             zero = np.zeros(batch) if (batch and rnd.random() < 0.5) else 0.0
@@ -475,6 +523,7 @@ def run(ctx):
             ctx.hit("workload:more than 64 distinct terms")
         probe.report(ctx)
         reach.report(ctx)
+    ctx.require("event:distinct terms with the empty name", "event:coefficients of a Linear term edited in place after an evaluation", "law:an activation keeps its own degrees", "compare:Linear term value")
     ctx.require("workload:terms of a user's own classes", "law:values handed out earlier are left alone", *[f"environment:{e}" for e in ENVIRONMENTS])
     ctx.require("event:defuzzification gave up part-way", "workload:more than 64 distinct terms", "law:defuzzification leaves inputs and degrees untouched")
     ctx.require("hook:WeightedAverage.defuzzify", "hook:WeightedSum.defuzzify", "hook:Aggregated.grouped_terms", "hook:Aggregated.activation_degree", "law:zero-degree insertion", "piece:mixed-kinds", "piece:zero-degree-member", "piece:repeated-term-grouped", "piece:nan:no-activations", "piece:nan:all-weights-zero", "law:average-of-constants-bounded", "calls:WeightedAverage:batch", "calls:WeightedSum:batch", "event:aggregated object reused with other contents")
